@@ -411,4 +411,49 @@ theorem sdOf_dip_pos {n : V3 ℝ} (hn : V3.dot n n = 1) (hz : n.z ≤ 0) (hxy : 
   · exact h'
   · rw [← h', Real.sin_zero] at s2; exact absurd s2 hρ.ne
 
+/-- `normalDot` is the absolute value of the dot product of the two unit normals -/
+theorem normalDot_eq (s₁ d₁ s₂ d₂ : ℝ) :
+    normalDot s₁ d₁ s₂ d₂ = |V3.dot (sdrVec2 s₁ d₁) (sdrVec2 s₂ d₂)| := by
+  simp only [normalDot, flt_abs, flt_sin, flt_cos, V3.dot, sdrVec2]
+  congr 1
+  rw [Real.cos_sub]; ring
+
+theorem normalDot_self (s d : ℝ) : normalDot s d s d = 1 := by
+  simp only [normalDot, flt_abs, flt_sin, flt_cos, sub_self, Real.cos_zero, mul_one]
+  rw [show sin d * sin d + cos d * cos d = 1 by linear_combination Real.sin_sq_add_cos_sq d, abs_one]
+
+/-- the angles returned for a unit normal pointing up (or horizontal) reproduce the normal, also when
+    it is vertical -/
+theorem sdrVec2_sdOf {m : V3 ℝ} (hm : V3.dot m m = 1) (hz : m.z ≤ 0) :
+    sdrVec2 (mod2pi (sdOf m).1) (sdOf m).2 = m := by
+  by_cases hxy : m.x ≠ 0 ∨ m.y ≠ 0
+  · obtain ⟨ρ, hρ, h⟩ := exists_rho hxy
+    obtain ⟨c1, s1, c2, s2⟩ := sdOf_trig hm hz hρ h
+    have h0 : ρ ≠ 0 := hρ.ne'
+    apply V3.ext' <;> simp only [sdrVec2, flt_sin, flt_cos, cos_mod2pi, sin_mod2pi, c1, s1, c2, s2] <;>
+      field_simp
+  · rw [not_or, not_not, not_not] at hxy
+    obtain ⟨hx, hy⟩ := hxy
+    have hmz : m.z = -1 := by
+      simp only [V3.dot, hx, hy] at hm
+      have : (m.z + 1) * (m.z - 1) = 0 := by linear_combination hm
+      rcases mul_eq_zero.mp this with h | h
+      · linarith
+      · linarith
+    have a0 : atan2 0 0 = 0 := by unfold atan2; exact Complex.arg_zero
+    apply V3.ext' <;>
+      simp [sdrVec2, sdOf, hx, hy, hmz, a0, cos_mod2pi, sin_mod2pi]
+
+/-- the plane returned by `fpToSdr` for a unit normal `n` has normal `±n` -/
+theorem normalDot_fpToSdr {n sl : V3 ℝ} (hn : V3.dot n n = 1) (s d : ℝ) :
+    normalDot (fpToSdr n sl).1 (fpToSdr n sl).2.1 s d = |V3.dot n (sdrVec2 s d)| := by
+  obtain ⟨m, t, hc, hmz, h⟩ := fpToSdr_eq n sl
+  rw [unit_of_unit hn] at hc
+  rw [h, normalDot_eq]
+  rcases hc with ⟨rfl, -, -⟩ | ⟨rfl, -, -⟩
+  · rw [sdrVec2_sdOf hn hmz]
+  · rw [sdrVec2_sdOf (by rw [dot_neg_neg, hn]) hmz]
+    simp only [V3.dot, V3.neg]
+    rw [← abs_neg]; congr 1; ring
+
 end MTfitVerif.ConvertSdr
